@@ -32,7 +32,9 @@ add("C05.upd_all","VH_c05_upd_all",BGP,c05,{"n":6},{"n":8},expect_reach=["ok","e
 add("C05.upd_attr_pair","VH_c05_upd_attr_pair",BGP,c05,{"n":7},{"n":8},expect_reach=["end"],merge=UM)
 for name,n in [("origin",6),("aspath",12),("nexthop",8),("med",8),("localpref",8),("atomic",5),("aggregator",12),("communities",12),("originator",8),("clusterlist",12),("mpreach",9),("mpunreach",8),("extcomm",12),("as4path",12),("as4aggr",12),("pmsi",12),("tunnelencap",10),("ip6extcomm",24),("aigp",14),("ls",10),("largecomm",16),("prefixsid",10),("unknown",8)]:
     # unwinding bound derived from the buffer: every decoder loop consumes >= 1 byte per iteration of a (8+n)-byte buffer
-    add("C05.upd_attr_"+name,"VH_c05_upd_attr_"+name,BGP,c05,{"params":{"n":n},"unwind":n+12},{"params":{"n":n+4},"unwind":n+16},expect_reach=["end"],merge=UM)
+    # thorough: 4 more bytes (2 for the MP attributes, whose NLRI loops dominate the run time)
+    t=n+2 if name in ("mpreach","mpunreach") else n+4
+    add("C05.upd_attr_"+name,"VH_c05_upd_attr_"+name,BGP,c05,{"params":{"n":n},"unwind":n+12},{"params":{"n":t},"unwind":t+12},expect_reach=["end"],merge=UM)
 
 exec(open('/verif/tools/genindex_more.py').read()) if __import__('os').path.exists('/verif/tools/genindex_more.py') else None
 ix={"defaults":{"quick":{"unwind":80,"paths":50000,"query_ms":20000,"harness_s":150},"thorough":{"unwind":200,"paths":500000,"query_ms":60000,"harness_s":1200}},"harnesses":H}
